@@ -335,4 +335,25 @@ theorem trace_noninterference_solve (on reset : Bool) :
     | nonConvergence => rfl
     | badErrorsArg => rfl
 
+/-- `solve_period(label)` of a tracer-extended model (mirrors `solvePeriod`): the traced solve of the label's position,
+    KeyError (`none`) for a label that does not resolve to a single position. -/
+def tracedSolvePeriod (on reset : Bool) (l : Loc) (w : World (σ × List (TraceLabel × S))) :
+    World (σ × List (TraceLabel × S)) × Option Result :=
+  match l with
+  | .pos i => ((tracedSolveT I snap on reset o n i w).1, some (tracedSolveT I snap on reset o n i w).2)
+  | _ => (w, none)
+
+/-- **Non-interference for `solve_period()`** — with `trace_noninterference` (`solve_t`) and
+    `trace_noninterference_solve` (`solve`) this covers every solve method of the mixin. -/
+theorem trace_noninterference_solve_period (on reset : Bool) (l : Loc) (w : World (σ × List (TraceLabel × S))) :
+    ((tracedSolvePeriod I snap o n on reset l w).1.map Prod.fst, (tracedSolvePeriod I snap o n on reset l w).2)
+      = solvePeriod I o n l (w.map Prod.fst) := by
+  cases l with
+  | pos i =>
+    have h := trace_noninterference I snap o n (i : Int) on reset w
+    simp only [tracedSolvePeriod, solvePeriod]
+    rw [← h]
+  | other => rfl
+  | missing => rfl
+
 end Fsic.C17
